@@ -201,11 +201,20 @@ def run(ctx):
     if wbody:
         ix = index_of(wbody)
         seeks = []
+        seek_bbs = {}
         for bi, t_ in wbody.calls():
             c = t_.get("res") or ""
             if c.endswith("Seek>::seek") and len(t_["args"]) == 2:
                 seeks.append(derive(ix, t_["args"][1]))
+                seek_bbs[id(seeks[-1])] = bi
         elem = [d for d in seeks if {"vertex_data_offset", "vertex_buffer_offsets", "vertex_buffer_strides", "stream", "offset"} <= d.names]
+        if len(elem) == 1:
+            # the reader positions itself for every element (C06 SEEK element|unconditional); so must the writer: a seek
+            # skipped while "the stream has not changed" puts elements listed out of offset order in the wrong bytes
+            from ..loops import on_every_cycle
+
+            oc = on_every_cycle(wbody, seek_bbs[id(elem[0])])
+            ctx.ob("SEEK", "element|every-element", oc is True, f"the element seek is passed on every iteration of the element loop: {oc}; each element must be written at its own computed position", wbody.file, wbody.line)
         ctx.ob("SEEK", "element", len(elem) == 1 and "Mul" in elem[0].ops, f"writer element seek derives from {sorted(elem[0].names) if elem else None}; must include the same five terms as the reader", wbody.file, wbody.line, sample=True)
         idx = [d for d in seeks if {"index_offsets", "start_index"} <= d.names]
         ctx.ob("SEEK", "indices", len(idx) == 1 and "Mul" in idx[0].ops and (2 in idx[0].consts or any(c.endswith("size_of") for c in idx[0].calls)), f"writer index seek derives from {sorted(idx[0].names) if idx else None}", wbody.file, wbody.line)
@@ -356,6 +365,24 @@ def run(ctx):
             fld = any(isinstance(pr, dict) and pr.get("n") == "submesh_index" for pr in l_["p"])
             if whole or fld:
                 idx_writes.append(f"bb{bi_}")
+        # ... and the row that receives the new range is addressed through the *edited part's* submesh_index, never
+        # through the index carried by a caller-supplied SubMesh (which may come from another part or LOD)
+        rows = []
+        for _bi, t_ in rvb.calls():
+            if (t_.get("res") or "").endswith("IndexMut<I>>::index_mut") and len(t_["args"]) == 2:
+                d0_ = derive(eix, t_["args"][0])
+                if {"model_data", "submeshes"} <= d0_.names:
+                    d1_ = derive(eix, t_["args"][1])
+                    names_, params_ = set(d1_.names), set(d1_.params)
+                    if any("Zip<" in c_ or c_.endswith("Iterator::zip") for c_ in d1_.calls) and len({"#0", "#1"} & names_) == 1:
+                        # the index comes from one side of a zip(part's sub-meshes, caller's list): only that side counts
+                        side = 0 if "#0" in names_ else 1
+                        zips = [z_ for _zb, z_ in rvb.calls() if (z_.get("res") or "").endswith("Iterator::zip") and len(z_["args"]) == 2]
+                        if len(zips) == 1:
+                            dz_ = derive(eix, zips[0]["args"][side])
+                            names_, params_ = set(dz_.names) | {"submesh_index"} & names_, set(dz_.params)
+                    rows.append("submesh_index" in d1_.names and {"lods", "parts"} <= names_ and 1 in params_ and 6 not in params_)
+        ctx.ob("EDIT", "replace|row-of-edited-part", bool(rows) and all(rows), f"replace_vertices addresses model_data.submeshes by the edited part's own submesh_index at {sum(rows)} of {len(rows)} store(s) (not by the index inside the caller's SubMesh values)", rvb.file, rvb.line)
         ctx.ob("EDIT", "replace|keeps-submesh-index", not idx_writes, f"replace_vertices overwrites a SubMesh (or its submesh_index) {len(idx_writes)} time(s); the index addressing the header's sub-mesh table must stay the part's own", rvb.file, rvb.line)
         ctx.ob("EDIT", "replace|vertex-count", has("vertex_count", {"vertices"}, (), ("::len",)), "mesh.vertex_count = part.vertices.len()", rvb.file, rvb.line)
         ctx.ob("EDIT", "replace|index-count", has("index_count", {"indices"}, (), ("::len",)), "mesh.index_count = part.indices.len()", rvb.file, rvb.line)
